@@ -62,6 +62,22 @@ class PoolProp(Prop):
             if rng.random() < 0.4:
                 hist.append(self.gen_call(rng, 3))
             return dict(cfg=cfg, hist=hist, seed=rng.randrange(1 << 30), policy=rng.choice(["first:main", "first:main", "last:w", "random"]))
+        if self.focus == "C04" and rng.random() < 0.15:
+            # a plain FunctorPool whose workers have a quota: nobody is replaced, so the history offers at most
+            # workers * quota chunks (otherwise the pool runs out of workers by design); the quota must still be kept
+            W, k = rng.randint(1, 3), rng.randint(1, 3)
+            cfg = [W, rng.choice([None, ["f", 10]]), rng.choice([None, 2]), 0, k]
+            budget, hist = W * k, []
+            for _ in range(rng.randint(1, 3)):
+                if rng.random() < 0.25:
+                    hist.append([1])
+                    continue
+                c = rng.randint(1, 2)
+                nch = rng.randint(0, min(budget, 3))
+                budget -= nch
+                n = max(0, nch * c - (rng.randint(0, c - 1) if nch else 0))
+                hist.append([0, rng.randint(0, 1), [rng.randint(0, 9) for _ in range(n)], c])
+            return dict(cfg=cfg, hist=hist, seed=rng.randrange(1 << 30), policy=rng.choice(POLICIES))
         if self.focus in ("C01", "C02"):
             hist = [self.gen_call(rng)]
         else:
